@@ -335,8 +335,9 @@ class Lexer:
 
             chars = []
             while not self.eos() and self.read() != '"':
-                # An escaped " should not close the string
-                if self.read(2) == '\\"':
+                # An escaped " should not close the string; an escaped
+                # backslash does not escape the character after it.
+                if self.read() == "\\" and len(self.read(2)) == 2:
                     chars.append(self.read(2))
                     self.pos += 2
                 else:
